@@ -3,14 +3,18 @@ from .. import cfggen, cfgrun, cfgstream, core, cutter, schemafam as F
 
 RULE = ("accepted texts of the schema family, each with exactly one injected fault of a listed kind at a random line "
         "(culprit line known by construction; both spellings of an empty section; a repeated key is a declared single key or "
-        "a key of a single-valued arbitrary-key map '+', the latter repeated anywhere later in its container), and the same text with 1..3 "
+        "a key of a single-valued arbitrary-key map '+', the latter repeated anywhere later in its container; an unconvertible value is a key's text "
+        "or a whole nested section that its section type's datatype rejects when the enclosing section is closed - culprit: that closing line), and the same text with 1..3 "
         "balanced ranges moved into %include fragments so that the culprit sits in the main resource or in a fragment at "
         "any include depth (expected: the line number within that resource and that resource's URL); non-trivial = the fault was applicable "
         "and the text is rejected; distinct by (schema, text)")
 
 KINDS = ["junk", "directive", "undefined-subst", "malformed-subst", "unknown-key", "repeat-key", "repeat-arbitrary-key", "bad-key", "bad-value",
          "unknown-header", "misplaced-header", "missing-required", "missing-required-empty", "surplus-section",
-         "stray-close", "mismatched-close"]
+         "stray-close", "mismatched-close", "rejected-section"]
+
+# key datatypes whose conversion of the text '!sbad' is a string that still holds it (what zcvdt.sectmarker looks for)
+_TEXT_DTS = ("string", "null", "zcvdt.marker")
 
 
 def render_map(items, cont, depth, lines, recs):
@@ -232,6 +236,54 @@ def inject(rng, elab, items, kind):
             blk = ["<" + hdr + ">"] + blk[1:]
         lines[r["end"] + 1: r["end"] + 1] = blk
         return lines, r["end"] + 1 + len(blk), ["syntax"], {}
+    if kind == "rejected-section":
+        # an unconvertible SECTION: every line of it converts, but the datatype of its section type (a check over the whole
+        # section, zcvdt.sectmarker) rejects the section value.  A section is converted when the section that ENCLOSES it is
+        # closed, so the line that causes the rejection is the closing line of the enclosing section (nesting depth >= 1; the
+        # section is the occupant of a single slot or a member of a multisection, written '<t>...</t>' or - before the
+        # offending key line is put into it - '<t/>').  Sections directly at top level are converted when the text has been
+        # read to its end: no line of it closes anything, so they are not among the listed kinds.
+        cands = []
+        for r in sects:
+            t = [te for n, te in elab[1] if n == r["type"] and te[0] == "concrete"]
+            if not t or t[0][1][3] != "zcvdt.sectmarker":
+                continue
+            if r["cont"] is None:
+                continue
+            children, kt = cfggen._children_of(elab, r["type"])
+            keys = [info for key, info in children if info[0] == "key" and info[1] != "+" and not info[3] and info[5] in _TEXT_DTS]
+            if not keys:
+                continue
+            enc = [s for s in sects if s["end"] != s["start"] and s["start"] < r["start"] and r["end"] < s["end"]][-1]
+            cands.append((r, kt, keys, enc))
+        if not cands:
+            return None
+        r, kt, keys, enc = rng.choice(cands)
+        info = rng.choice(keys)
+        bad = rng.choice(["!sbad", "x !sbad y", "!sbad !sbad"])
+        own = [x for x in kvs if x["cont"] == r["type"] and r["start"] < x["line"] < r["end"] and cfggen._norm(kt, x["item"][1]) == info[1]
+               and [s for s in sects if s["end"] != s["start"] and s["start"] < x["line"] <= s["end"]][-1] is r]
+        pcont, pkt = cfggen._children_of(elab, enc["type"])
+        slot = cfggen.claiming_child(elab, pcont, r["type"], r["item"][2].lower() if r["item"][2] else None)
+        depth = len([s for s in sects if s["end"] != s["start"] and s["start"] < r["start"] and r["end"] < s["end"]])
+        extra = {"slot": "multisection" if slot and slot[3] else "section", "depth": depth}
+        if own:
+            x = own[-1]          # (the given line: the last one, were the key given twice the base would not be accepted)
+            ind = lines[x["line"]][: len(lines[x["line"]]) - len(lines[x["line"]].lstrip())]
+            lines[x["line"]] = ind + x["item"][1] + " " + bad
+            extra["how"] = "value-of-given-key"
+            return lines, enc["end"] + 1, ["conversion"], extra
+        ind = lines[r["start"]][: len(lines[r["start"]]) - len(lines[r["start"]].lstrip())]
+        if r["end"] == r["start"]:
+            # '<t/>' becomes '<t>', the key line, '</t>'
+            hdr = lines[r["start"]].strip()[1:-2].rstrip()
+            lines[r["start"]: r["start"] + 1] = [ind + "<" + hdr + ">", ind + "  " + info[1] + " " + bad, ind + "</" + r["item"][1] + ">"]
+            extra["how"] = "key-added-to-empty-form"
+            return lines, enc["end"] + 3, ["conversion"], extra
+        p = rng.choice([r["start"] + 1, r["end"]])      # first or last line of the section's body
+        lines.insert(p, ind + "  " + info[1] + " " + bad)
+        extra["how"] = "key-added"
+        return lines, enc["end"] + 2, ["conversion"], extra
     if kind == "mismatched-close":
         cands = [r for r in sects if r["end"] != r["start"]]
         if not cands:
@@ -272,11 +324,14 @@ def run(ctx):
     # 1. base texts, kept only when the real loader accepts them (the quantifier: accepted texts)
     bases = []
     for _ in range(n_schemas):
-        sd, real, elab, hn = cfgstream.make_schema(rng, False)
+        # (two schemas in five also have a section type with a checking datatype nested in a holder type: the place for the
+        #  fault kind 'rejected-section', which the general family offers in one accepted text out of eighty)
+        sd, real, elab, hn = cfgstream.make_schema(rng, False, schema_hook=cfggen.add_checked_section if rng.random() < 0.4 else None)
         if not cfgstream.check_digest(ctx, sd, real, elab):
             continue
         for _ in range(per):
-            items = cfggen.gen_items(rng, elab, None, 3, pfill=0.9)
+            # (one text in five is sparse: optional keys mostly left out, sections often empty and written '<t/>')
+            items = cfggen.gen_items(rng, elab, None, 3, pfill=0.9 if rng.random() < 0.8 else 0.5)
             lines, recs = [], []
             render_map(items, None, 0, lines, recs)
             out, _, _ = cfgrun.real_load(real, "\n".join(lines) + "\n", cfgstream.URL)
@@ -287,7 +342,11 @@ def run(ctx):
     # 2. one fault each
     cases = []
     for sd, real, elab, hn, items in bases:
-        for kind in rng.sample(KINDS, 3):
+        # three kinds drawn at random, and always the rare one (few schemas offer a place for it)
+        kinds = rng.sample(KINDS, 3)
+        if "rejected-section" not in kinds:
+            kinds.append("rejected-section")
+        for kind in kinds:
             r = inject(rng, elab, items, kind)
             if r is None:
                 ctx.count("inapplicable:" + kind)
@@ -296,6 +355,8 @@ def run(ctx):
             if kind == "repeat-arbitrary-key":
                 ctx.count("repeat-arbitrary-key:%s:%s" % ("top-level" if extra["at-top"] else "in-section",
                                                           "adjacent" if extra["distance"] == 1 else "apart"))
+            if kind == "rejected-section":
+                ctx.count("rejected-section:%s:depth-%d:%s" % (extra["slot"], min(extra["depth"], 3), extra["how"]))
             c = cfgstream.Case()
             c.sd, c.real, c.elab, c.hnames = sd, real, elab, hn
             c.lines, c.faults, c.overrides = lines, [kind], ()
